@@ -2,6 +2,7 @@ package main
 
 import (
 	"fmt"
+	"go/types"
 	"strings"
 )
 
@@ -12,6 +13,7 @@ func (vc *VC) TranslateLemma(l *Lemma) (sc *Script, err error) {
 	sc = newScript(name)
 	sc.Lemma = l
 	sc.QuickStride = l.QuickStride
+	sc.Tactic = l.Tactic
 	sc.Splits = l.Splits
 	sc.Pos = fmt.Sprintf("%s:%d", strings.TrimPrefix(l.File, vc.repo+"/"), l.Line)
 	defer func() {
@@ -30,6 +32,11 @@ func (vc *VC) TranslateLemma(l *Lemma) (sc *Script, err error) {
 	cnt := 0
 	f := vc.newFctx(nil, &Contract{Loops: map[int][]Clause{}}, sc, "", &cnt)
 	f.lemmaReveal = l.Reveal
+	if l.Float == "ideal" {
+		f.ideal = true
+		sc.Ideal = true
+		sc.Trusted["float64 arithmetic treated as real arithmetic in this lemma (float ideal)"] = true
+	}
 	f.cur = &State{cells: map[string]Term{}}
 	f.entry = f.cur
 	f.curReach = BoolLit(true)
@@ -43,7 +50,7 @@ func (vc *VC) TranslateLemma(l *Lemma) (sc *Script, err error) {
 	for _, st := range l.Stmts {
 		switch st.Kind {
 		case "var":
-			s := sortByName(st.Sort)
+			s := vc.lemmaSort(l, st.Sort)
 			nm := "v!" + st.Name
 			sc.Params = append(sc.Params, ParamDecl{Name: nm, Source: st.Name, Sort: s})
 			t := Term{S: nm, Sort: s}
@@ -75,8 +82,11 @@ func (vc *VC) TranslateLemma(l *Lemma) (sc *Script, err error) {
 			nAssert++
 			ob := &Obligation{Name: "L/assert" + tag, Kind: "L", Goal: Implies(f.curReach, wantBoolE(t)).S, Pos: fmt.Sprintf("%s:%d", strings.TrimPrefix(st.Clause.File, vc.repo+"/"), st.Clause.Line), Desc: st.Clause.Text, Func: name}
 			sc.Items = append(sc.Items, Item{Ob: ob})
-			// a proved assertion may be used by later ones
-			f.assumeCut(t)
+			// a proved assertion may be used by later ones (not under the nonlinear tactic: every assertion there is a
+			// polynomial identity on its own, and an assumed identity only enlarges the later queries)
+			if l.Tactic != "nlsat" {
+				f.assumeCut(t)
+			}
 		case "call":
 			key := st.Callee
 			if !strings.Contains(key, ":") {
@@ -120,4 +130,23 @@ func (vc *VC) TranslateLemma(l *Lemma) (sc *Script, err error) {
 		}
 	}
 	return sc, nil
+}
+
+// lemmaSort: the basic sort names, or a named Go type of the lemma's package (value structs, arrays).
+func (vc *VC) lemmaSort(l *Lemma, name string) *Sort {
+	switch name {
+	case "int", "real", "str", "bool", "atom", "strs", "ints", "any":
+		return sortByName(name)
+	}
+	for key, fn := range vc.funcsByKey {
+		if strings.HasPrefix(key, l.PkgDir+":") && fn.Pkg != nil {
+			if obj := fn.Pkg.Pkg.Scope().Lookup(name); obj != nil {
+				if tn, ok := obj.(*types.TypeName); ok {
+					return vc.sortOf(tn.Type())
+				}
+			}
+		}
+	}
+	specFail("lemma %s: unknown sort or type %q", l.Name, name)
+	return nil
 }
